@@ -5,6 +5,7 @@ import (
 	"sort"
 	"strings"
 
+	douceur "github.com/aymerick/douceur/parser"
 	"pgregory.net/rapid"
 )
 
@@ -106,6 +107,42 @@ func declAccepted(m *Model, el string, d decl) bool {
 	return false
 }
 
+// styleStrictReplay: set while the witness of the known finding is replayed, so that the class
+// predicate below cannot hide it.
+var styleStrictReplay bool
+
+// cssParserDivergence is the class predicate of known finding D37: the CSS parser the sanitiser
+// uses (douceur / gorilla css) reads the style as a list of declarations each of which the policy
+// accepts, while a browser (cssx.go) reads a different list — the parser takes URL(...), url( with
+// white space or a quote inside, for a function and so finds comments and strings, and with them
+// ';' and ':', where a browser's url / bad-url token has long ended.
+func cssParserDivergence(m *Model, el, style string) bool {
+	s := strings.TrimRight(style, " \t\n\f\r")
+	if s != "" && s[len(s)-1] != ';' {
+		s += ";"
+	}
+	pd, err := douceur.ParseDeclarations(s)
+	if err != nil {
+		return false
+	}
+	bd := parseDecls(style)
+	same := len(pd) == len(bd)
+	for i := 0; same && i < len(pd); i++ {
+		if pd[i].Property != bd[i].Prop || strings.TrimSpace(pd[i].Value) != strings.TrimSpace(bd[i].Value) {
+			same = false
+		}
+	}
+	if same {
+		return false
+	}
+	for _, d := range pd {
+		if !declAccepted(m, el, decl{Prop: d.Property, Value: d.Value}) {
+			return false
+		}
+	}
+	return true
+}
+
 func checkStyleSafety(m *Model, out string, outToks []tok, r *Rec) (kept int, err error) {
 	for _, tk := range outToks {
 		if !isOpenTag(tk) || !m.HasStyleRules(tk.Name) {
@@ -124,6 +161,12 @@ func checkStyleSafety(m *Model, out string, outToks []tok, r *Rec) (kept int, er
 			}
 			for _, d := range decls {
 				if !declAccepted(m, tk.Name, d) {
+					if !styleStrictReplay && cssParserDivergence(m, tk.Name, a.Val) && knownClassEnabled("C10", "css_parser_reads_url_or_comment_differently_from_browser") {
+						if r != nil {
+							r.Excluded("css_parser_reads_url_or_comment_differently_from_browser")
+						}
+						break
+					}
 					return kept, violation(out, "C10: declaration %q: %q on <%s> (value as a browser reads it: %q) is not accepted by any rule registered for that property on the element, a matching pattern or globally",
 						d.Prop, d.Value, tk.Name, cssDecode(strings.ToLower(strings.TrimSpace(d.Value))))
 				}
@@ -142,7 +185,9 @@ func checkC10(c *Case, r *Rec) error {
 	in := string(c.Input)
 	out, _ := sanitizeSpec(c.Spec, in)
 	inToks, outToks := tokenize(in), tokenize(out)
+	styleStrictReplay = c.Kind == "strict-replay"
 	kept, err := checkStyleSafety(m, out, outToks, r)
+	styleStrictReplay = false
 	if err != nil {
 		return err
 	}
